@@ -16,7 +16,7 @@ func zzH12handle() {
 	rec, st := &zzRec{}, &zzState{}
 	cfg := zzCfg("eth0")
 	pfx := netip.MustParsePrefix("2001:db8::/64")
-	valid := zzNondetDuration("our.valid")
+	valid := zzOwnLifetime("our.valid")
 	cfg.Plugins = []plugin.Plugin{
 		&plugin.Prefix{Prefix: pfx, OnLink: true, Autonomous: true, ValidLifetime: valid, PreferredLifetime: 4 * time.Hour},
 		&plugin.Route{Prefix: netip.MustParsePrefix("2001:db8:ffff::/48"), Preference: ndp.High, Lifetime: 24 * time.Hour},
@@ -28,8 +28,8 @@ func zzH12handle() {
 		hooks++
 		hookOurs, hookTheirs = ours, theirs
 	}
-	theirValid := zzNondetDuration("their.valid")
-	theirRoute := zzNondetDuration("their.route")
+	theirValid := zzRecvLifetime("their.valid")
+	theirRoute := zzRecvLifetime("their.route")
 	theirs := &ndp.RouterAdvertisement{
 		CurrentHopLimit: zzNondetUint8("their.hop"), ManagedConfiguration: cfg.Managed, OtherConfiguration: cfg.OtherConfig,
 		RouterLifetime: zzNondetDuration("their.lifetime"),
@@ -44,7 +44,7 @@ func zzH12handle() {
 	// C04: our side of the comparison is the RA we would send now
 	zzAssert(len(st.fwdCalls) == 1 && len(st.fwdValues) == 1, "forwarding-read-once-for-the-consistency-check")
 	hopDiff := theirs.CurrentHopLimit != cfg.HopLimit
-	validDiff := theirValid != valid
+	validDiff := zzDiffer(valid, theirValid)
 	routeDiff := theirRoute != 24*time.Hour
 	n := zzIte(hopDiff, 1, 0) + zzIte(validDiff, 1, 0) + zzIte(routeDiff, 1, 0)
 	zzAssert(rec.count("adv_inconsistencies") == n, "one-counter-increment-per-inconsistency")
